@@ -7,7 +7,6 @@ import (
 
 	"seehuhn.de/go/sfnt/cmap"
 	"seehuhn.de/go/sfnt/glyph"
-	"seehuhn.de/go/sfnt/mac"
 
 	"verif/explore"
 	"verif/refcmap"
@@ -318,7 +317,7 @@ func c09Bytes(r *run.Run) {
 				for code := 0; code < 256; code++ {
 					r := rune(code)
 					if macKey {
-						r = mac.DecodeOne(byte(code)) // character codes of a (1,0) subtable are Mac Roman
+						r = refMacRoman(byte(code)) // character codes of a (1,0) subtable are Mac Roman (published table, independent of the library's)
 					}
 					if got := sub.Lookup(r); uint16(got) != uint16(g[code]) {
 						sig := "unicode key"
@@ -364,6 +363,80 @@ func c09Bytes(r *run.Run) {
 				}
 				if got := sub.Lookup(rune(code)); uint16(got) != ref[uint32(code)] {
 					c.Fail("C09.bytes-format6", "lookup", "code %#x: library %d, specification %d (first=%#x glyphs=%v)", code, got, ref[uint32(code)], first, gl)
+				}
+			}
+		})
+
+	r.Explore(explore.Config{Name: "C09.bytes-mac"},
+		"format 4 (delta and glyph-array segments) and format 6 subtables under the Macintosh Roman key (1,0) with codes in 0x20..0xFF and holes, first codes {0x20,0x41,0x7E,0x80,0xA0} x lengths {1,2,0x20,0x60}: every BMP rune maps to the glyph of the Mac Roman byte that encodes it (published Mac OS Roman table), all others to glyph 0; the same bytes under a Unicode key decode unchanged",
+		func(c *explore.Ctx) {
+			first := explore.Pick(c, "first code", 0x20, 0x41, 0x7E, 0x80, 0xA0)
+			n := explore.Pick(c, "codes", 1, 2, 0x20, 0x60)
+			if first+n > 0x100 {
+				n = 0x100 - first
+			}
+			form := c.Choose(3, "subtable form") // format 6, format 4 delta segments, format 4 glyph array
+			glyphOf := map[int]uint16{}
+			gl := make([]uint16, n)
+			for i := range gl {
+				if i%5 != 3 { // holes
+					gl[i] = uint16(10 + i)
+					glyphOf[first+i] = gl[i]
+				}
+			}
+			var b []byte
+			switch form {
+			case 0:
+				b = refcmap.Assemble6(uint16(first), gl, 0, false)
+			case 1:
+				var segs []refcmap.Seg4
+				for i := 0; i < n; i++ {
+					if gl[i] != 0 {
+						code := uint16(first + i)
+						segs = append(segs, refcmap.Seg4{Start: code, End: code, Delta: gl[i] - code})
+					}
+				}
+				b = refcmap.Assemble4(append(segs, refcmap.Seg4{Start: 0xFFFF, End: 0xFFFF, Delta: 1}), 0)
+			default:
+				b = refcmap.Assemble4([]refcmap.Seg4{{Start: uint16(first), End: uint16(first + n - 1), Glyphs: gl}, {Start: 0xFFFF, End: 0xFFFF, Delta: 1}}, 0)
+			}
+			desc := fmt.Sprintf("%s, codes %#x..%#x", []string{"format 6", "format 4 (delta segments)", "format 4 (glyph array)"}[form], first, first+n-1)
+			c.Sample(func() any { return desc })
+			c.Nontrivial()
+			c.Outcome(b)
+			macKey := cmap.Key{PlatformID: 1, EncodingID: 0}
+			uniKey := cmap.Key{PlatformID: 0, EncodingID: 3}
+			tab := cmap.Table{macKey: b, uniKey: b}
+			enc := tab.Encode()
+			tab2, err := cmap.Decode(enc)
+			if err != nil {
+				c.Fail("C09.bytes-mac", "table", "cmap.Decode(Encode(t)) fails: %v (%s)", err, desc)
+				return
+			}
+			msub, err := tab2.Get(macKey)
+			if err != nil {
+				c.Fail("C09.bytes-mac", "decode", "library rejects the subtable under the Macintosh key: %v (%s)", err, desc)
+				return
+			}
+			usub, err := tab2.Get(uniKey)
+			if err != nil {
+				c.Fail("C09.bytes-mac", "decode", "library rejects the subtable under the Unicode key: %v (%s)", err, desc)
+				return
+			}
+			want := map[rune]uint16{}
+			for code, g := range glyphOf {
+				want[refMacRoman(byte(code))] = g
+			}
+			for ru := rune(0); ru <= 0xFFFF; ru++ {
+				if got := msub.Lookup(ru); uint16(got) != want[ru] {
+					c.Fail("C09.bytes-mac", "mac key "+[]string{"format 6", "format 4", "format 4"}[form], "%U under the Macintosh key: library gives glyph %d, want %d (Mac Roman byte table); %s", ru, got, want[ru], desc)
+					break
+				}
+			}
+			for ru := rune(0); ru <= 0x200; ru++ {
+				if got := usub.Lookup(ru); uint16(got) != glyphOf[int(ru)] {
+					c.Fail("C09.bytes-mac", "unicode key", "%U under the Unicode key: library gives glyph %d, want %d; %s", ru, got, glyphOf[int(ru)], desc)
+					break
 				}
 			}
 		})
